@@ -56,19 +56,19 @@ def diagList (g : GGrid) (eps : Rat) (a b : Pt) (i j ib jb : Int) : List Cross :
 
 theorem crossingsOf_eq (g : GGrid) (eps : Rat) (a b : Pt) :
     crossingsOf g eps a b =
-      (let i : Int := ((cellOf g b).1 : Int) - ((cellOf g a).1 : Int)
-       let j : Int := ((cellOf g b).2 : Int) - ((cellOf g a).2 : Int)
-       let ib : Int := (cellOf g a).1
-       let jb : Int := (cellOf g a).2
+      (let i : Int := ((gridCellOf g b).1 : Int) - ((gridCellOf g a).1 : Int)
+       let j : Int := ((gridCellOf g b).2 : Int) - ((gridCellOf g a).2 : Int)
+       let ib : Int := (gridCellOf g a).1
+       let jb : Int := (gridCellOf g a).2
        if i = 0 ∧ j = 0 then [] else
        if j = 0 then rowList g a b i ib jb else
        if i = 0 then colList g a b j ib jb else (diagList g eps a b i j ib jb).take (i.natAbs + j.natAbs)) := by
   unfold crossingsOf
   simp only
-  generalize hi : ((cellOf g b).1 : Int) - ((cellOf g a).1 : Int) = i
-  generalize hj : ((cellOf g b).2 : Int) - ((cellOf g a).2 : Int) = j
-  generalize ((cellOf g a).1 : Int) = ib
-  generalize ((cellOf g a).2 : Int) = jb
+  generalize hi : ((gridCellOf g b).1 : Int) - ((gridCellOf g a).1 : Int) = i
+  generalize hj : ((gridCellOf g b).2 : Int) - ((gridCellOf g a).2 : Int) = j
+  generalize ((gridCellOf g a).1 : Int) = ib
+  generalize ((gridCellOf g a).2 : Int) = jb
   generalize hd : i.natAbs + j.natAbs = dist
   match dist, hd with
   | 0, hd =>
@@ -107,10 +107,10 @@ theorem crossingsOf_eq (g : GGrid) (eps : Rat) (a b : Pt) :
 
 /-- the same without the final `zip` truncation (shown below to drop nothing in general position) -/
 def crossingsRaw (g : GGrid) (eps : Rat) (a b : Pt) : List Cross :=
-  let i : Int := ((cellOf g b).1 : Int) - ((cellOf g a).1 : Int)
-  let j : Int := ((cellOf g b).2 : Int) - ((cellOf g a).2 : Int)
-  let ib : Int := (cellOf g a).1
-  let jb : Int := (cellOf g a).2
+  let i : Int := ((gridCellOf g b).1 : Int) - ((gridCellOf g a).1 : Int)
+  let j : Int := ((gridCellOf g b).2 : Int) - ((gridCellOf g a).2 : Int)
+  let ib : Int := (gridCellOf g a).1
+  let jb : Int := (gridCellOf g a).2
   if i = 0 ∧ j = 0 then [] else
   if j = 0 then rowList g a b i ib jb else
   if i = 0 then colList g a b j ib jb else diagList g eps a b i j ib jb
@@ -219,17 +219,17 @@ theorem GenPos.nhband (H : GenPos g eps a b) {s : Rat} {L : Int} (h0 : 0 < s) (h
 
 /-- the cell indices of the ends are the floors of the normalised coordinates -/
 theorem GenPos.cella (H : GenPos g eps a b) :
-    ((cellOf g a).1 : Int) = (nU g a).floor ∧ ((cellOf g a).2 : Int) = (nV g a).floor := by
+    ((gridCellOf g a).1 : Int) = (nU g a).floor ∧ ((gridCellOf g a).2 : Int) = (nV g a).floor := by
   have h1 : 0 ≤ (nU g a).floor := le_floor (by simpa using H.ua0)
   have h2 : 0 ≤ (nV g a).floor := le_floor (by simpa using H.va0)
-  unfold cellOf
+  unfold gridCellOf
   exact ⟨Int.toNat_of_nonneg h1, Int.toNat_of_nonneg h2⟩
 
 theorem GenPos.cellb (H : GenPos g eps a b) :
-    ((cellOf g b).1 : Int) = (nU g b).floor ∧ ((cellOf g b).2 : Int) = (nV g b).floor := by
+    ((gridCellOf g b).1 : Int) = (nU g b).floor ∧ ((gridCellOf g b).2 : Int) = (nV g b).floor := by
   have h1 : 0 ≤ (nU g b).floor := le_floor (by simpa using H.ub0)
   have h2 : 0 ≤ (nV g b).floor := le_floor (by simpa using H.vb0)
-  unfold cellOf
+  unfold gridCellOf
   exact ⟨Int.toNat_of_nonneg h1, Int.toNat_of_nonneg h2⟩
 
 end
@@ -1149,7 +1149,7 @@ theorem floor_const {q0 q1 s1 s2 : Rat} (hno : ∀ s, s1 < s → s < s2 → ∀ 
 theorem raw_between_crossings_one_cell (H : GenPos g eps a b) {s1 s2 : Rat} (h1 : 0 ≤ s1) (h2 : s2 ≤ 1)
     (hno : ∀ c, c ∈ crossingsRaw g eps a b → ¬ (s1 < c.s ∧ c.s < s2))
     {r r' : Rat} (hr : s1 < r ∧ r < s2) (hr' : s1 < r' ∧ r' < s2) :
-    cellOf g (segPoint a b r) = cellOf g (segPoint a b r') := by
+    gridCellOf g (segPoint a b r) = gridCellOf g (segPoint a b r') := by
   have nocross : ∀ s, s1 < s → s < s2 → ¬ IsCrossing g a b s := by
     intro s hs1 hs2 hc
     obtain ⟨c, hc, e⟩ := raw_crossings_complete H hc
@@ -1164,7 +1164,7 @@ theorem raw_between_crossings_one_cell (H : GenPos g eps a b) {s1 s2 : Rat} (h1 
     intro s hs1 hs2 K e
     apply nocross s hs1 hs2
     exact ⟨by linarith, by linarith, Or.inr ((onH_iff g _ H.cy).2 ⟨K, by rw [nV_segPoint g a b s H.cy]; exact e⟩)⟩
-  unfold cellOf
+  unfold gridCellOf
   have e1 : ((segPoint a b r).1 - g.ox) / g.cx = lin (nU g a) (nU g b) r := nU_segPoint g a b r H.cx
   have e2 : ((segPoint a b r').1 - g.ox) / g.cx = lin (nU g a) (nU g b) r' := nU_segPoint g a b r' H.cx
   have e3 : ((segPoint a b r).2 - g.oy) / g.cy = lin (nV g a) (nV g b) r := nV_segPoint g a b r H.cy
@@ -1288,8 +1288,8 @@ theorem isCrossing_iff (H : GenPos g eps a b) (s : Rat) :
     empty and `zip` drops nothing -/
 theorem raw_crossings_count (H : GenPos g eps a b) :
     (crossingsRaw g eps a b).length =
-      (((cellOf g b).1 : Int) - ((cellOf g a).1 : Int)).natAbs +
-      (((cellOf g b).2 : Int) - ((cellOf g a).2 : Int)).natAbs := by
+      (((gridCellOf g b).1 : Int) - ((gridCellOf g a).1 : Int)).natAbs +
+      (((gridCellOf g b).2 : Int) - ((gridCellOf g a).2 : Int)).natAbs := by
   rw [H.cella.1, H.cella.2, H.cellb.1, H.cellb.2, ← axisList_length, ← axisList_length, ← List.length_append]
   have hs := crossings_spec H
   have n1 : ((crossingsRaw g eps a b).map (·.s)).Nodup := by
@@ -1378,8 +1378,8 @@ theorem C16_crossings_sorted (H : GenPos g eps a b) :
     empty and the `zip` drops nothing -/
 theorem C16_crossings_count (H : GenPos g eps a b) :
     (crossingsOf g eps a b).length =
-      (((cellOf g b).1 : Int) - ((cellOf g a).1 : Int)).natAbs +
-      (((cellOf g b).2 : Int) - ((cellOf g a).2 : Int)).natAbs := by
+      (((gridCellOf g b).1 : Int) - ((gridCellOf g a).1 : Int)).natAbs +
+      (((gridCellOf g b).2 : Int) - ((gridCellOf g a).2 : Int)).natAbs := by
   rw [crossingsOf_eq_raw H]; exact raw_crossings_count H
 
 /-- **C16, between two consecutive intersections the segment stays in one cell**: on an open
@@ -1389,7 +1389,7 @@ theorem C16_crossings_count (H : GenPos g eps a b) :
 theorem C16_between_crossings_one_cell (H : GenPos g eps a b) {s1 s2 : Rat} (h1 : 0 ≤ s1) (h2 : s2 ≤ 1)
     (hno : ∀ c, c ∈ crossingsOf g eps a b → ¬ (s1 < c.s ∧ c.s < s2))
     {r r' : Rat} (hr : s1 < r ∧ r < s2) (hr' : s1 < r' ∧ r' < s2) :
-    cellOf g (segPoint a b r) = cellOf g (segPoint a b r') := by
+    gridCellOf g (segPoint a b r) = gridCellOf g (segPoint a b r') := by
   rw [crossingsOf_eq_raw H] at hno; exact raw_between_crossings_one_cell H h1 h2 hno hr hr'
 
 end
@@ -1419,8 +1419,8 @@ theorem C16_metadata_spec {g : GGrid} {eps : Rat} {a b : Pt} (H : GenPos g eps a
     (∀ c, c ∈ crossingsMeta g eps a b → IsCrossing g a b c.s ∧ 0 < c.t ∧ c.t < 1) ∧
     (∀ s, IsCrossing g a b s → ∃ c, c ∈ crossingsMeta g eps a b ∧ c.s = s) ∧
     (crossingsMeta g eps a b).length =
-      (((cellOf g b).1 : Int) - ((cellOf g a).1 : Int)).natAbs +
-      (((cellOf g b).2 : Int) - ((cellOf g a).2 : Int)).natAbs := by
+      (((gridCellOf g b).1 : Int) - ((gridCellOf g a).1 : Int)).natAbs +
+      (((gridCellOf g b).2 : Int) - ((gridCellOf g a).2 : Int)).natAbs := by
   obtain ⟨hm, hl⟩ := C16_metadata_same_intersections g eps a b
   refine ⟨?_, ?_, by rw [hl]; exact C16_crossings_count H⟩
   · intro c hc
